@@ -35,6 +35,14 @@ def run(chk):
                 cases.append(rc.str_case(2, edges, prov, True, ph))
                 if chk.thorough:
                     cases.append(rc.str_case(2, edges, prov, False, ph))
+    # two registered languages with own global repositories: failing importer / failing imported file of the other language
+    for edges in ([[(0, 1)], [(0, 1), (1, 0)]] if not chk.thorough else [e for e in rc.all_graphs(2) if (0, 1) in e]):
+        for ff in range(2):
+            for ph in rc.PHASES:
+                hist = [{"op": "load", "file": 1}] if ff == 0 else []
+                hist += [{"op": "load", "file": 0}, {"op": "write", "file": 0, "version": 1}, {"op": "write", "file": 1, "version": 1},
+                         {"op": "load", "file": 0}, {"op": "load", "file": 1}]
+                cases.append(rc.ml_case(2, edges, [0, 1], [True, True], provider=rc.PROVIDERS[len(cases) % 2], fail=(ff, ph), ops=hist))
     n = 1200 if chk.thorough else 140
     for i in range(n):
         r = chk.rng.split(i)
